@@ -53,11 +53,16 @@ type c13Macro struct {
 var holeRe = regexp.MustCompile(`\bhole([0-9])\b`)
 
 // ulitRe: ulit3 / ulittrue in a template stand for unquote(3) / unquote(true) in the macro and for the literal by hand.
-var ulitRe = regexp.MustCompile(`\bulit(3|true|false|25)\b`)
+var ulitRe = regexp.MustCompile(`\bulit(3|true|false|25|40|str)\b`)
 
 func ulitText(m string) string {
-	if m == "ulit25" {
+	switch m {
+	case "ulit25":
 		return "2.5"
+	case "ulit40":
+		return "4.0" // a float whose value is integral: it stays a float in the expansion
+	case "ulitstr":
+		return "\"a\\tb\\\"c\""
 	}
 	return strings.TrimPrefix(m, "ulit")
 }
@@ -86,6 +91,7 @@ var c13Contexts = []string{
 	"if %s {1} else {2}", "if true {%s}", "if false {1} else {%s}", "if false {1} else if %s {2}", "for zk = %s {break}", "for zk = 0:%s {break}", "for zk = %s:3 {break}", "for %s {break}", "for 2 {%s}",
 	"func() {return %s}()", "zx => %s", "(zx => zx)(%s)", "len([%s])", "mm[%s] = 1", "mm.k = %s", "mm[0] = %s", "zv = %s", "zv := %s", "catch(%s)", "(%s).k", "arr[%s][0]", "%s == 1 && true", "false || %s",
 	"(func(za, ..) {[%s, ..]})(1, 2, 3)", "func zvar(za, ..) {len(..) + (%s)}", "zl = (a, ..) => {%s}; zl(1, 2)",
+	"mm.(%s)", "{\"st\": 1, \"k\": 2}.(%s)", "arr.(%s)", "mm.(%s).x", "mm.k.(%s)",
 	"del(mm[%s])", "println(1, %s)", "[1, 2, 3][%s:][0]", "(%s)(1)", "first([%s])", "{\"a\": [%s]}",
 }
 
@@ -104,7 +110,7 @@ func genTemplate(c *fw.Ctx, k int) string {
 	switch c.Rng.IntN(12) {
 	case 11: // literals spliced with unquote besides the parameters
 		if k > 0 {
-			return []string{"hole0 + ulit3", "if ulittrue {hole0} else {ulit3}", "[ulit3, ulit25, hole0][ulit3 - 3]", "ulitfalse || hole0 == ulit3"}[c.Rng.IntN(4)]
+			return []string{"hole0 + ulit3", "if ulittrue {hole0} else {ulit3}", "[ulit3, ulit25, hole0][ulit3 - 3]", "ulitfalse || hole0 == ulit3", "[ulit40 / 8, ulit40, hole0]", "[ulit3 / ulit40, hole0 / ulit40]", "[ulitstr, hole0, len(ulitstr)]"}[c.Rng.IntN(7)]
 		}
 		n = g.Expr(gt.TInt, 2)
 	case 8, 9, 10: // a hole in one given child slot
